@@ -445,6 +445,19 @@ def r4b(ctx):
                      "the parser handed to the parse comes out of %s (%s): a cached parser keeps the grammar it was first configured with, so a document of another "
                      "language (same Rust type, e.g. SupportLang) is re-parsed with the wrong grammar" % (cached, sorted({describe_origin(fi, o) for o in roots})[:3]), where=f.loc(c.line))
     ctx.floor("R4", "places handing a parser to the parse in core::source", n, 1)
+    # …and the parser reads the WHOLE text: a re-parse restricted to included ranges (say, the old root's range) never lexes text
+    # inserted in front of the first token — the tree of the edited document lacks it, a fresh parse has it
+    limited = []
+    for f in sorted(prog.fns.values(), key=lambda f: f.id):
+        if f.crate != "ast_grep_core" or not f.file.endswith("core/src/source.rs"):
+            continue
+        for c in f.calls:
+            if c.bb in f.live_blocks and c.name == "set_included_ranges":
+                limited.append("%s at %s" % (f.id, f.loc(c.line)))
+    ctx.ob("R4", "the parse started by core::source covers the whole text", not limited,
+           "no set_included_ranges on the parser that Doc::parse / parse_lang hand to the parse" if not limited else
+           "the parser is limited to included ranges before the parse (%s): text outside them (an insertion before the first token of the old tree) is not parsed, "
+           "the edited document's tree differs from a fresh parse of its text" % limited[:2])
 
 
 def r7(ctx):
